@@ -318,5 +318,5 @@ _patch('C01', 'level_text', 'Unbounded proof', 'Operator precedence and associat
 _patch('C01', 'level_note', 'Not decided: parser, compiler lowering, call protocol.', 'Not decided: the statement and primary-expression parsers, termination of the Pratt loop, scope-exit drops, call protocol.')
 _patch('C01', 'level_text', 'Unbounded proof', 'Calls (calls unit, the real Vm::op_call / resolve_call / call / call_closure / check_arity): a callee that does not accept the argument count raises the runtime error and pushes no frame, an accepted call pushes exactly one frame of that function with its captures and argument count, recursion beyond the frame limit is a catchable runtime error, a value that is not callable raises. Unbounded proof')
 _patch('C01', 'level_note', 'scope-exit drops, call protocol.', 'scope-exit drops, the frame layout behind push_frame / pop_frame.')
-_patch('C01', 'level_text', 'Unbounded proof', 'Block scopes (scopec unit, the real Compiler::scope / begin_scope / end_scope / drop_locals / drop_local_count / push_local / declare_local_variable / define_local_variable): a declared local is exactly one new entry at the current depth (its slot is the old local count; a captured one gets its box), and leaving a block emits one Drop for every local the block declared, no more and no fewer, removes exactly those entries and pops the block table, so a block leaves the locals of its surroundings as they were. Unbounded proof')
-_patch('C01', 'level_note', 'scope-exit drops, the frame layout', 'module-level declarations, let_ / block themselves (their callees are under contract), the frame layout')
+_patch('C01', 'level_text', 'Unbounded proof', 'Block scopes (scopec unit, the real Compiler::scope / begin_scope / end_scope / drop_locals / drop_local_count / push_local / declare_local_variable / define_local_variable / declare_variable / define_variable / let_): a let is declare, initialiser (nil without one), define, in that order, a stack local only below module level; a declared local is exactly one new entry at the current depth (its slot is the old local count; a captured one gets its box), and leaving a block emits one Drop for every local the block declared, no more and no fewer, removes exactly those entries and pops the block table, so a block leaves the locals of its surroundings as they were. Unbounded proof')
+_patch('C01', 'level_note', 'scope-exit drops, the frame layout', 'module-level declarations (declare_module_variable / define_module_variable are stubs), the frame layout')
